@@ -8,8 +8,9 @@ from vlib import Finding, enc, dec
 import sanlib
 from sanlib import REF_ELEMS, REF_ATTRS, REF_MATHML_E, REF_MATHML_A, REF_SVG_E, REF_SVG_A, REF_SVG_E_L, REF_SVG_A_L
 
-LEAN_MODULES = ["FeedVerif.Props.C03", "FeedVerif.Model.SanDriver"]
-CORR_OBLIGATIONS = ["M-san.step + serializePiece ~ HTMLSanitizer callbacks (pieces emitted and unacceptablestack/mathmlOK/svgOK after every sgmllib callback)"]
+LEAN_MODULES = ["FeedVerif.Props.C03", "FeedVerif.Model.SanDriver", "FeedVerif.Model.MixinDriver"]
+CORR_OBLIGATIONS = ["M-mixin (stage 2) ~ the real pop() on title and the text-construct elements: content type, value and *_detail after the guess / resolver / sanitizer steps, whose answers (and the per-call options) are passed to the model as parameters",
+                    "M-san.step + serializePiece ~ HTMLSanitizer callbacks (pieces emitted and unacceptablestack/mathmlOK/svgOK after every sgmllib callback)"]
 TRUSTED = ["Lean model FeedVerif/Model/San.lean of sanitizer.py:736-838 and html.py:149-290 (filter + serializer over the callback sequence)",
            "sgmllib + feedparser's regex overrides (the tokenizer) are third-party and not modelled: the model starts at the callbacks",
            "sanitize_style / make_safe_absolute_uri / html.unescape enter as oracle values per attribute (they have their own models: C14, C04)"]
@@ -161,8 +162,10 @@ def correspondence(ctx):
             if len(dis) < 20:
                 dis.append({"markup": m[0], "type": m[1], "line": l[:200],
                             "model": dec(g.split()[1]) if g.startswith("P ") else g, "impl": dec(e.split()[1]) if e.startswith("P ") else e})
-    return {"cases": len(lines), "distinct": len(set(zip(lines, exp))), "unmodelled": dist["unmodelled_runs"], "disagreements": dis, "distribution": dist,
+    res = {"cases": len(lines), "distinct": len(set(zip(lines, exp))), "unmodelled": dist["unmodelled_runs"], "disagreements": dis, "distribution": dist,
             "samples": [{"markup": meta[1][0][:200], "type": meta[1][1]}]}
+    import mixlib
+    return mixlib.content_corr(ctx, ctx.n(60, 800), into=res)
 
 
 # ------------------------------------------------------------------ search
